@@ -220,7 +220,7 @@ def run_case(case):
                 sample = {"rpc": call["rpc"], "entry": entry, "fault_sequence": call["seq"], "attempts": r["attempts"],
                           "virtual_sleeps": r["sleeps"], "time_remaining": [round(x, 1) if x else x for x in r["time_remaining"]],
                           "outcome": r["outcome"]}
-    return {"verdict": "violated" if viol else "held", "violations": viol[:20], "evaluations": counters.get("calls_judged", 0),
+    return {"verdict": "violated" if viol else "held", "violations": pipeline.diverse(viol, 40), "evaluations": counters.get("calls_judged", 0),
             "nontrivial_sigs": sorted(sigs), "counters": counters, "sample": sample or {}}
 
 
